@@ -60,7 +60,8 @@ class C11(object):
                    'small caps may fail before the switch period; accepted',
                    'contraction class has no alias/derived rows (their rows have sup-norm 1)']
     required_counters = ('switch.failed_loud', 'switch.sweeps_checked', 'switch.state_after_failure_checked',
-                         'contraction.solved', 'names.rejected', 'decl.rejected')
+                         'contraction.solved', 'names.rejected', 'decl.rejected',
+                         'switch.zero_tolerance_requested')
 
     def n_cases(self, tier):
         self._names = all_reserved()
@@ -77,8 +78,12 @@ class C11(object):
         if m in (0, 1, 2, 3, 4):
             kind = rng.choice(sorted(SWITCH_KINDS))
             T = rng.randint(2, 8)
-            return {'kind': 'switch', 'which': kind, 'maxtime': T, 'p': rng.randint(1, T),
-                    'cap': rng.choice([0, 1, 2, 5, 11, 12, 20, 50]), 'tol': 10 ** rng.uniform(-10, -2),
+            return {'kind': 'switch', 'which': kind, 'maxtime': T,
+                    # zero-tolerance cases stay benign for ever: the only question is exact solution or loud failure
+                    'p': (T + 1) if m == 4 else rng.randint(1, T),
+                    'cap': rng.choice([20, 50, 200, 400]) if m == 4 else rng.choice([0, 1, 2, 5, 11, 12, 20, 50]),
+                    # incl. a requested tolerance of exactly 0 (an exact fixed point or a loud failure, nothing in between)
+                    'tol': 0.0 if m == 4 else 10 ** rng.uniform(-10, -2),
                     'reduction': rng.random() < 0.5, 'stepwise': rng.random() < 0.4, 'with_lag': rng.random() < 0.75}
         if m in (5, 6, 7):
             n = rng.randint(1, 12)
@@ -238,6 +243,8 @@ class C11(object):
             return {'verdict': 'violated', 'shape': shape, 'counters': rec.counters, 'violations': rec.violations,
                     'obs': obs, 'nontrivial': True}
         rec.count('switch.sweeps_checked', len(counts))
+        if case['tol'] == 0.0:
+            rec.count('switch.zero_tolerance_requested')
         ts = dict(s.TimeSeries)
         exo = {'A', 'k'}
         if outcome == 'returned':
